@@ -96,6 +96,14 @@ func (e *Encoder) callCommon(instr ssa.Instruction, cm *ssa.CallCommon, res ssa.
 		args = append(args, e.val(a))
 	}
 	if bi, ok := cm.Value.(*ssa.Builtin); ok {
+		// (site assertions on the few builtins with an effect worth pinning: close, delete, panic)
+		switch bi.Name() {
+		case "close", "delete", "panic":
+			if e.fc != nil && len(e.fc.Sites) > 0 {
+				bsn := e.siteName("call", bi.Name())
+				e.siteAsserts("call "+bi.Name(), bsn, st, pc, args)
+			}
+		}
 		return e.builtin(bi, cm, args, resT, st, pc)
 	}
 	if cm.IsInvoke() {
@@ -139,7 +147,9 @@ func (e *Encoder) callCommon(instr ssa.Instruction, cm *ssa.CallCommon, res ssa.
 		cname = o.Name() // an instantiation resize[T1] is addressed by the generic function's name
 	}
 	ssn := e.siteName("call", cname)
+	e.curCall = cm
 	e.siteAsserts("call "+cname, ssn, st, pc, args)
+	e.curCall = nil
 	if mc, ok := cm.Value.(*ssa.MakeClosure); ok {
 		if fc := e.prog.contractFor(callee); fc != nil {
 			var bind []Val
